@@ -10,7 +10,7 @@ parsers it tries in order), shared by C02, C03, C11 and C12.  Each Go parser `fu
 
 The code is mirrored **as it is**, including the oddities of `parseClipboard` (terminator stripped relative to the
 end of the buffer, 7-byte prefix skipped unchecked, `buf.ReadBytes` consumption) and `parseSgrMouse` (unknown bytes
-ignored), the X11 parser passing `Cb` with its +32 offset to `buildMouseEvent`, the `t.escaped` Alt handling and the
+ignored; `Cfg.sgrStrict` selects the repaired variant that rejects them), the X11 parser passing `Cb` with its +32 offset to `buildMouseEvent`, the `t.escaped` Alt handling and the
 `t.buttondn` debounce.  `parseFunctionKey` iterates a Go map; the model returns the unique matching entry and the
 explicit verdict `ambiguous` when two entries match (the Go result then depends on iteration order).
 Go `int` arithmetic in the SGR parser is 64-bit two's complement (`wrap64`).  Core Lean only.
@@ -59,6 +59,9 @@ structure Cfg where
   x11Fixed : Bool := false
   /-- `false` = the pinned `parseClipboard`; `true` = the repaired one of fixes/C02-clipboard.patch (`parseClipboardF`) -/
   clipFixed : Bool := false
+  /-- `false` = the pinned `parseSgrMouse` (bytes with no `case` are skipped); `true` = the repaired one of
+  fixes/C02-sgr-strict.patch (`default: return false, false`) -/
+  sgrStrict : Bool := false
 
 /-! ### NewEventKey (key.go:243-262) -/
 
@@ -206,6 +209,15 @@ def sgrStep (s : SgrSt) (c : Nat) : SgrRes :=
     (if s.state ≠ 5 then .rej else .fin s.x (wrap64 (sgrVal s - 1)) s.btn (c = 109))
   else .cont s
 
+/-- the bytes that have a `case` in the switch of `parseSgrMouse`: `ESC 0x9B [ < - 0…9 ; m M` -/
+def sgrKnown (c : Nat) : Bool :=
+  c == 27 || c == 0x9b || c == 91 || c == 60 || c == 45 || (48 ≤ c && c ≤ 57) || c == 59 || c == 109 || c == 77
+
+/-- one iteration of the loop of the tree under test: with fixes/C02-sgr-strict.patch (`strict`) the switch has
+`default: return false, false`, i.e. a byte without a `case` rejects; the cases themselves are unchanged -/
+def sgrStepV (strict : Bool) (s : SgrSt) (c : Nat) : SgrRes :=
+  if strict && !sgrKnown c then .rej else sgrStep s c
+
 /-- button code handed to `buildMouseEvent` (bits 0..6) and the new `buttondn` (tscreen.go:1449-1471) -/
 def sgrButtons (st : PState) (btn : Int) (release : Bool) : Nat × Bool :=
   let c := (btn % 128).toNat
@@ -257,7 +269,7 @@ def parseXtermMouse (cfg : Cfg) (st : PState) (b : Bytes) : Verdict :=
 def sgrRun (cfg : Cfg) (st : PState) : SgrSt → Bytes → (i : Nat) → Verdict
   | _, [], _ => .part
   | s, c :: rest, i =>
-    match sgrStep s c with
+    match sgrStepV cfg.sgrStrict s c with
     | .rej => .reject
     | .cont s' => sgrRun cfg st s' rest (i + 1)
     | .fin x y btn rel => sgrFinish cfg st x y btn rel (i + 1)
@@ -506,6 +518,6 @@ def decTable (tbl : List Int) (p : Bytes) : DecResult :=
 /-- configuration of the parser of a screen built for `ti` -/
 def cfgOf (v : Variant) (ti : Terminfo) (dec : Bytes → DecResult) (w h : Int) : Cfg :=
   { keys := buildKeys v.keycaps ti, mouse := mouseActive ti, clipboard := clipboardActive ti, dec := dec, w := w, h := h,
-    x11Fixed := v.x11, clipFixed := v.clip }
+    x11Fixed := v.x11, clipFixed := v.clip, sgrStrict := v.sgr }
 
 end Tcell.Model
